@@ -5,6 +5,8 @@ import GrinVerif.Lemmas.PowRoomComplete
 import GrinVerif.Lemmas.PowTotal
 import GrinVerif.Lemmas.PowUXor
 import GrinVerif.Lemmas.PowRoodComplete
+import GrinVerif.Model.PowCtx
+import GrinVerif.Model.PowDiff
 /-! # C05 — PoW verification accepts exactly the simple cycles of the header-seeded graph
 
 All theorems are about the verifier models of `Model/Pow.lean` (transliterations of the five Rust
@@ -30,7 +32,7 @@ slots lie on `L` different edges (`ucyc_cycle`); conversely a cycle yields the p
 cycle forwards or backwards (`gcyc_trace`). Cuckarood is reduced to the same engine through its
 per-direction slot numbering (`slotOf`, `sigR`). -/
 namespace GV.Props.C05
-open GV GV.Pow
+open GV GV.Pow GV.Gen
 
 /-! ## Cuckaroom -/
 
@@ -509,6 +511,260 @@ example : ¬ IsProofCycleCuckarooz [(1, 2), (1, 2), (3, 4), (3, 4)] := by
   rw [isProofCycleCuckarooz_iff_verifier _ (by decide)]
   decide +kernel
 
+/-! ## Context histories
+
+`verify` is a function of (variant, edge_bits, proof sizes, siphash keys); the keys are a function
+of the header (+ nonce) of the LAST `set_header_nonce`; `solve` flags, `find_cycles` calls and
+everything before the last `set_header_nonce` are irrelevant. In the model this is immediate
+(`Ctx.verify` reads `keys` only, Model/PowCtx.lean), so `verify_history_independent` is a statement
+about the model's shape, not evidence about the code: this clause of the property rests on the
+correspondence run over context histories (`pow hist`), where the real object's verdict after
+every history is compared with this model, with a freshly created real context for the same
+(header, edge_bits), and with the cycle oracle. -/
+
+/-- header and nonce of the last `set_header_nonce` of a history -/
+def lastSeed (ops : List CtxOp) : Option (Bytes × Option Nat) :=
+  ops.foldl (fun acc op => match op with | .seed h n _ => some (h, n) | .find _ => acc) none
+
+/-- the keys a context holds: those of the last seeding, or the initial ones -/
+def keysAfter (k0 : Keys) : Option (Bytes × Option Nat) → Keys
+  | none => k0
+  | some (h, n) => keysOfHeader h n
+
+theorem step_static (c : Ctx) (op : CtxOp) :
+    (c.step op).variant = c.variant ∧ (c.step op).edgeBits = c.edgeBits ∧
+    (c.step op).proofsize = c.proofsize ∧ (c.step op).ctxProofSize = c.ctxProofSize := by
+  cases op <;> simp only [Ctx.step] <;> split <;> simp
+
+theorem step_keys (c : Ctx) (op : CtxOp) :
+    (c.step op).keys = match op with | .seed h n _ => keysOfHeader h n | .find _ => c.keys := by
+  cases op <;> simp only [Ctx.step] <;> split <;> simp
+
+theorem run_static (ops : List CtxOp) : ∀ c : Ctx,
+    (c.run ops).variant = c.variant ∧ (c.run ops).edgeBits = c.edgeBits ∧
+    (c.run ops).proofsize = c.proofsize ∧ (c.run ops).ctxProofSize = c.ctxProofSize := by
+  induction ops with
+  | nil => intro c; simp [Ctx.run]
+  | cons op r ih =>
+    intro c
+    have h1 := ih (c.step op)
+    have h2 := step_static c op
+    simp only [Ctx.run, List.foldl_cons] at h1 ⊢
+    refine ⟨h1.1.trans h2.1, h1.2.1.trans h2.2.1, h1.2.2.1.trans h2.2.2.1, h1.2.2.2.trans h2.2.2.2⟩
+
+theorem run_keys (k0 : Keys) (ops : List CtxOp) : ∀ (c : Ctx) (acc : Option (Bytes × Option Nat)),
+    c.keys = keysAfter k0 acc →
+    (c.run ops).keys = keysAfter k0
+      (ops.foldl (fun acc op => match op with | .seed h n _ => some (h, n) | .find _ => acc) acc) := by
+  induction ops with
+  | nil => intro c acc h; simpa [Ctx.run] using h
+  | cons op r ih =>
+    intro c acc h
+    simp only [Ctx.run, List.foldl_cons]
+    apply ih
+    rw [step_keys]
+    cases op with
+    | seed hd n s => simp [keysAfter]
+    | find sols => simpa using h
+
+/-- A context's verdict is a function of its construction parameters and of the header / nonce of
+its LAST `set_header_nonce` — not of the `solve` flags, the `find_cycles` calls, or anything that
+happened before. -/
+theorem verify_history_independent (v : Variant) (eb ps cps : Nat) (ops₁ ops₂ : List CtxOp)
+    (h : lastSeed ops₁ = lastSeed ops₂) (ns : List Nat) :
+    ((Ctx.new v eb ps cps).run ops₁).verify ns = ((Ctx.new v eb ps cps).run ops₂).verify ns := by
+  have s1 := run_static ops₁ (Ctx.new v eb ps cps)
+  have s2 := run_static ops₂ (Ctx.new v eb ps cps)
+  have k1 := run_keys (Ctx.new v eb ps cps).keys ops₁ (Ctx.new v eb ps cps) none rfl
+  have k2 := run_keys (Ctx.new v eb ps cps).keys ops₂ (Ctx.new v eb ps cps) none rfl
+  unfold lastSeed at h
+  simp only [Ctx.verify, s1.1, s1.2.1, s1.2.2.1, s1.2.2.2, s2.1, s2.2.1, s2.2.2.1, s2.2.2.2, k1, k2, h]
+
+/-- … in particular the verdict after any history equals that of a FRESH context seeded once,
+for verification, with the last header. -/
+theorem verify_eq_fresh (v : Variant) (eb ps cps : Nat) (pre post : List CtxOp)
+    (hdr : Bytes) (nonce : Option Nat) (solve : Bool)
+    (hpost : ∀ op ∈ post, ∃ sols, op = CtxOp.find sols) (ns : List Nat) :
+    ((Ctx.new v eb ps cps).run (pre ++ CtxOp.seed hdr nonce solve :: post)).verify ns
+      = ((Ctx.new v eb ps cps).step (.seed hdr nonce false)).verify ns := by
+  have : ((Ctx.new v eb ps cps).step (.seed hdr nonce false))
+      = (Ctx.new v eb ps cps).run [.seed hdr nonce false] := by simp [Ctx.run]
+  rw [this]
+  apply verify_history_independent
+  have hp : ∀ (post : List CtxOp) acc, (∀ op ∈ post, ∃ sols, op = CtxOp.find sols) →
+      post.foldl (fun acc op => match op with | .seed h n _ => some (h, n) | .find _ => acc) acc = acc := by
+    intro post
+    induction post with
+    | nil => intro acc _; rfl
+    | cons op r ih =>
+      intro acc hh
+      obtain ⟨sols, rfl⟩ := hh op (by simp)
+      simp only [List.foldl_cons]
+      exact ih acc (fun o ho => hh o (by simp [ho]))
+  simp only [lastSeed, List.foldl_append, List.foldl_cons, List.foldl_nil]
+  exact hp post _ hpost
+
+example : lastSeed [.seed [1] none true, .find [[0]], .seed [2] (some 7) false, .find []] = some ([2], some 7) := rfl
+
+/-! ## Difficulty
+
+"The difficulty a proof achieves is a deterministic function of its packed nonces": the model's
+`toDifficulty chain height edge_bits secondary_scaling packed` takes the packed bytes only; the
+theorems say WHICH function — `floor(scale · 2^64 / max(1, hash prefix))` saturating at `u64::MAX`,
+at least 1 — and that the u128 arithmetic of the Rust code computes exactly that (no rounding, no
+truncation) for every u64 scale, in particular the graph weights of order 2^46..2^60 that
+AutomatedTesting / UserTesting reach at edge_bits 40..63. -/
+
+/-- `Proof::scaled_difficulty`'s u128 arithmetic computes exactly
+`min (floor (scale · 2^64 / max 1 h)) (2^64 − 1)` for every u64 `scale` and every `h`. -/
+theorem difficulty_exact (scale h : Nat) (hs : scale < 2^64) :
+    scaledDiffU128 scale h = diffExact scale h := by
+  unfold scaledDiffU128 diffExact
+  have h1 : scale % 2^64 = scale := Nat.mod_eq_of_lt hs
+  have h2 : scale * 2^64 % 2^128 = scale * 2^64 := by
+    apply Nat.mod_eq_of_lt
+    have : scale * 2^64 < 2^64 * 2^64 := Nat.mul_lt_mul_of_pos_right hs (by decide)
+    simpa using this
+  simp only [h1, h2]
+  apply Nat.mod_eq_of_lt
+  have := Nat.min_le_right (scale * 2 ^ 64 / max 1 h) (2^64 - 1)
+  omega
+
+theorem diffExact_le (scale h : Nat) : diffExact scale h ≤ 2^64 - 1 := Nat.min_le_right _ _
+
+/-- floor characterisation below saturation: `d · H ≤ scale · 2^64 < (d + 1) · H` -/
+theorem diffExact_floor (scale h : Nat) (hlt : diffExact scale h < 2^64 - 1) :
+    diffExact scale h * max 1 h ≤ scale * 2^64 ∧ scale * 2^64 < (diffExact scale h + 1) * max 1 h := by
+  have hpos : 0 < max 1 h := by omega
+  have hd : diffExact scale h = scale * 2^64 / max 1 h := by
+    unfold diffExact at hlt ⊢
+    omega
+  rw [hd]
+  constructor
+  · exact Nat.div_mul_le_self _ _
+  · have := Nat.lt_mul_div_succ (scale * 2^64) hpos
+    rw [Nat.mul_comm (max 1 h)] at this
+    exact this
+
+/-- saturation: the result is `u64::MAX` exactly when the quotient reaches it -/
+theorem diffExact_saturated_iff (scale h : Nat) :
+    diffExact scale h = 2^64 - 1 ↔ (2^64 - 1) * max 1 h ≤ scale * 2^64 := by
+  have hpos : 0 < max 1 h := by omega
+  rw [← Nat.le_div_iff_mul_le hpos]
+  unfold diffExact
+  omega
+
+/-- … which, for a 64-bit hash prefix, is exactly when the prefix does not exceed the scale -/
+theorem diffExact_saturated_iff_le (scale h : Nat) (hh : h < 2^64) :
+    diffExact scale h = 2^64 - 1 ↔ max 1 h ≤ scale := by
+  rw [diffExact_saturated_iff]
+  omega
+
+/-- a proof always achieves a difficulty of at least 1 under a non-zero scale -/
+theorem diffExact_pos (scale h : Nat) (hs : 1 ≤ scale) (hh : h < 2^64) : 1 ≤ diffExact scale h := by
+  unfold diffExact
+  have hpos : 0 < max 1 h := by omega
+  have : 1 ≤ scale * 2^64 / max 1 h := by
+    rw [Nat.le_div_iff_mul_le hpos]
+    have : 1 * 2^64 ≤ scale * 2^64 := Nat.mul_le_mul_right _ hs
+    omega
+  omega
+
+/-- … and 0 exactly under scale 0 (`from_num` then lifts it to 1) -/
+theorem diffExact_eq_zero_iff (scale h : Nat) (hh : h < 2^64) : diffExact scale h = 0 ↔ scale = 0 := by
+  constructor
+  · intro h0
+    rcases Nat.eq_zero_or_pos scale with hz | hp
+    · exact hz
+    · have := diffExact_pos scale h (by omega) hh
+      omega
+  · rintro rfl
+    simp [diffExact]
+
+/-- smaller hash ⇒ at least the difficulty -/
+theorem diffExact_antitone_hash (scale h h' : Nat) (hle : h ≤ h') :
+    diffExact scale h' ≤ diffExact scale h := by
+  unfold diffExact
+  have : scale * 2^64 / max 1 h' ≤ scale * 2^64 / max 1 h :=
+    Nat.div_le_div_left (by omega) (by omega)
+  omega
+
+/-- bigger scale ⇒ at least the difficulty -/
+theorem diffExact_mono_scale (scale scale' h : Nat) (hle : scale ≤ scale') :
+    diffExact scale h ≤ diffExact scale' h := by
+  unfold diffExact
+  have : scale * 2^64 / max 1 h ≤ scale' * 2^64 / max 1 h :=
+    Nat.div_le_div_right (Nat.mul_le_mul_right _ hle)
+  omega
+
+theorem graphWeight_lt (c : ChainType) (height eb : Nat) : graphWeight c height eb < 2^64 := by
+  unfold graphWeight mulW
+  exact Nat.mod_lt _ (by decide)
+
+theorem xprEdgeBits_le (height eb : Nat) : xprEdgeBits height eb ≤ eb := by
+  unfold xprEdgeBits satSub
+  split
+  · exact Nat.sub_le _ _
+  · exact Nat.le_refl _
+
+/-- in the range every chain uses (`base_edge_bits ≤ edge_bits ≤ 63`) nothing wraps:
+`graph_weight = 2^(edge_bits − base + 1) · xpr_edge_bits` -/
+theorem graphWeight_nowrap (c : ChainType) (height eb : Nat)
+    (hb : baseEdgeBits c ≤ eb) (he : eb ≤ 63) :
+    graphWeight c height eb = 2^(eb - baseEdgeBits c + 1) * xprEdgeBits height eb := by
+  have hx := xprEdgeBits_le height eb
+  have hbase : 10 ≤ baseEdgeBits c := by cases c <;> decide
+  unfold graphWeight
+  simp only []
+  have hsh : (eb % 256 + 256 - baseEdgeBits c) % 256 = eb - baseEdgeBits c := by omega
+  rw [hsh]
+  have hs64 : (eb - baseEdgeBits c) % 64 = eb - baseEdgeBits c := by omega
+  have hpow : 2 * 2^(eb - baseEdgeBits c) = 2^(eb - baseEdgeBits c + 1) := by
+    rw [Nat.pow_succ]; omega
+  have hle : 2^(eb - baseEdgeBits c + 1) ≤ 2^54 := Nat.pow_le_pow_right (by decide) (by omega)
+  have hshl : shlW 2 (eb - baseEdgeBits c) = 2^(eb - baseEdgeBits c + 1) := by
+    unfold shlW
+    rw [hs64, hpow]
+    exact Nat.mod_eq_of_lt (by omega)
+  rw [hshl]
+  unfold mulW
+  apply Nat.mod_eq_of_lt
+  have : 2^(eb - baseEdgeBits c + 1) * xprEdgeBits height eb ≤ 2^54 * 63 :=
+    Nat.mul_le_mul hle (by omega)
+  omega
+
+/-- `ProofOfWork::to_difficulty` is the exact definition under the scale the chain fixes,
+lifted to at least 1 by `Difficulty::from_num` -/
+theorem toDifficulty_exact (c : ChainType) (height eb sec : Nat) (packed : Bytes) (hsec : sec < 2^32) :
+    toDifficulty c height eb sec packed
+      = max (diffExact (if eb = SECOND_POW_EDGE_BITS then sec else graphWeight c height eb)
+              (hashPrefix packed)) 1 := by
+  unfold toDifficulty fromNum scaledDifficulty
+  split
+  · rw [difficulty_exact _ _ (by omega)]
+  · rw [difficulty_exact _ _ (graphWeight_lt _ _ _)]
+
+theorem toDifficulty_bounds (c : ChainType) (height eb sec : Nat) (packed : Bytes) (hsec : sec < 2^32) :
+    1 ≤ toDifficulty c height eb sec packed ∧ toDifficulty c height eb sec packed ≤ 2^64 - 1 := by
+  rw [toDifficulty_exact _ _ _ _ _ hsec]
+  have := diffExact_le (if eb = SECOND_POW_EDGE_BITS then sec else graphWeight c height eb) (hashPrefix packed)
+  omega
+
+theorem toUnscaledDifficulty_exact (packed : Bytes) :
+    toUnscaledDifficulty packed = max (diffExact 1 (hashPrefix packed)) 1 := by
+  unfold toUnscaledDifficulty fromNum scaledDifficulty
+  rw [difficulty_exact _ _ (by decide)]
+
+-- non-vacuity / concrete values
+example : diffExact 3 (2^63) = 6 := by decide
+example : diffExact (2^60) (2^59) = 2^64 - 1 := by decide
+example : diffExact (2^60) (2^60 + 1) = 2^64 - 1 - 15 := by decide
+example : diffExact 0 5 = 0 ∧ diffExact 7 0 = 2^64 - 1 := by decide
+example : diffExact (2^60) (2^60) = 2^64 - 1 ∧ diffExact (2^32 - 1) (2^32) < 2^64 - 1 := by decide
+example : graphWeight .automated 0 63 = 2^54 * 63 := by decide
+example : graphWeight .mainnet (YEAR_HEIGHT + 2 * WEEK_HEIGHT) 31 = 256 * 28 := by decide
+example : graphWeight .mainnet 0 23 = 0 ∧ graphWeight .mainnet 0 21 = 2^62 := by decide
+
 /-! ## What is not proved (kept visible)
 
 * The executable oracle `oracleCycle` (Model/PowSpec.lean: degree counting + connectivity closure,
@@ -518,10 +774,15 @@ example : ¬ IsProofCycleCuckarooz [(1, 2), (1, 2), (3, 4), (3, 4)] := by
   verifier (`isProofCycle*_iff_verifier`), not via the oracle. (For Cuckarood the corresponding
   corollary is not stated: its edge list carries direction bits that must agree with the nonce
   parities, so the bare-edge-list trick needs nonces of prescribed parity.)
-* `Proof` packing (`pack_bits` / `read_number`, padding check) and the difficulty function are
+* `Proof` packing (`pack_bits` / `read_number`, padding check) is
   modelled bit for bit (Model/PowPack.lean) and compared on every edge_bits 1..63, but the
   round-trip `readNumber (packNonces w ns) (i*w) w = ns[i]` is not a theorem here (DESIGN A.4 puts
   it under C10).
+* History independence of the real context objects is not provable from the model (where it holds
+  by construction, `verify_history_independent`): it is sampled by the `hist` run.
+* The hash prefix values 0 and 1 (`max(1, h)`) cannot be reached by searching nonce lists
+  (probability 2^-64 per proof): `max 1 h` is in the model and in `difficulty_exact`, but the
+  correspondence never exercises `h = 0`.
 * siphash / blake2b are executable models compared by value; nothing is proved about them (the
   graph theorems hold for every endpoint function). -/
 
